@@ -373,10 +373,12 @@ def aug_real(b, tab, m, ovr):
 
 
 def discount_signature(site, rec, real):
-    """The as-built model predicts exactly one deviation: the class-level discount instead of the instance's."""
+    """The as-built model predicts exactly one deviation, whatever the call site (augment() directly, the
+    sub-goal sub-task or its plan): the class-level discount instead of the instance's.  An observation
+    equal to that prediction gets the root cause's signature; any other discount mismatch its own."""
     r = real.get("discount")
     if rec["lossy"] and isinstance(r, float) and close(r, frac(rec["gclass"]), 1e-12):
-        return f"C15:{site}:discount_rate:instance-attribute-lost"
+        return "C15:augment:discount_rate:instance-attribute-lost"
     return f"C15:{site}:discount_rate:not-preserved"
 
 
@@ -593,6 +595,9 @@ def judge_plan(ctx, cases, tamper=None):
         if "error" in pl:
             sig = discount_signature(psite, r, st) if disc_bad else f"C15:{psite}:raises"
             ctx.violation(sig, f"planning_result raised {pl['error']}", rc)
+            continue
+        if not pl["converged"] and not disc_bad:
+            ctx.skip("plan: planner stopped by its iteration cap (values not judged)")
             continue
         eps = 1e-10
         tol = eps / (1 - float(g)) if g < 1 else eps * float(frac(r["nmax"]) or 1)
@@ -1279,7 +1284,7 @@ def asbuilt_runs(ctx, aug_cases, opt_cases):
 
 
 # ==============================================================================================
-SIZES = {"quick": dict(aug=24, plan=240, opt=200, trace=220), "thorough": dict(aug=400, plan=6000, opt=3000, trace=5000)}
+SIZES = {"quick": dict(aug=20, plan=200, opt=150, trace=200), "thorough": dict(aug=300, plan=5000, opt=2400, trace=4000)}
 
 
 def run(ctx):
